@@ -53,13 +53,24 @@ impl<const MAX_STREAMS: usize> StreamsManagerBase<MAX_STREAMS> {
     }
     pub open spec fn is_live(&self, id: int) -> bool { exists|i: int| 0 <= i < self.used_streams_count@ && (#[trigger] self.used_streams[i]) as int == id }
 }
-pub struct Channel<const BUFFER_SIZE: usize, const MAX_STREAMS: usize> { pub streams_manager: StreamsManagerBase<MAX_STREAMS>, pub dispatcher_managers: [Queue; MAX_STREAMS] }
+pub struct Channel<const BUFFER_SIZE: usize, const MAX_STREAMS: usize> { pub streams_manager: StreamsManagerBase<MAX_STREAMS>, pub dispatcher_managers: [Queue; MAX_STREAMS],
+    /// ghost: per listener, the wake-ups issued WHILE its queue had something to hand out (a wake-up issued before the handle is in the queue finds nothing: C04 mechanism)
+    pub eff: Ghost<Seq<nat>> }
 impl<const BUFFER_SIZE: usize, const MAX_STREAMS: usize> Channel<BUFFER_SIZE, MAX_STREAMS> {
+    /// `self.streams_manager.wake_stream(id)` seen from the channel (index bound obligation inherited)
+    #[verifier::external_body]
+    pub fn wake_stream(&mut self, stream_id: u32)
+        requires (stream_id as int) < MAX_STREAMS, old(self).streams_manager.wakes@.len() == MAX_STREAMS, old(self).eff@.len() == MAX_STREAMS,
+        ensures final(self).streams_manager.wakes@ == old(self).streams_manager.wakes@.update(stream_id as int, old(self).streams_manager.wakes@[stream_id as int] + 1),
+                final(self).streams_manager.used_streams == old(self).streams_manager.used_streams, final(self).streams_manager.used_streams_count == old(self).streams_manager.used_streams_count,
+                final(self).dispatcher_managers == old(self).dispatcher_managers,
+                final(self).eff@ == (if old(self).dispatcher_managers[stream_id as int].seq@.len() > 0 { old(self).eff@.update(stream_id as int, old(self).eff@[stream_id as int] + 1) } else { old(self).eff@ }),
+    { }
     /// `self.dispatcher_managers.get_unchecked(id).publish_movable(handle).0`: ASSUMED ring contract (C01/C02): accepted iff not full
     #[verifier::external_body]
     pub fn publish_to(&mut self, stream_id: u32, handle: OgreArc) -> (r: Option<NonZeroU32>)
         requires (stream_id as int) < MAX_STREAMS,
-        ensures final(self).streams_manager == old(self).streams_manager,
+        ensures final(self).streams_manager == old(self).streams_manager, final(self).eff == old(self).eff,
                 old(self).dispatcher_managers[stream_id as int].seq@.len() < BUFFER_SIZE ==> (r matches Some(n) && n.get() as int == old(self).dispatcher_managers[stream_id as int].seq@.len() + 1
                     && final(self).dispatcher_managers[stream_id as int].seq@ == old(self).dispatcher_managers[stream_id as int].seq@.push(handle.alloc@)),
                 old(self).dispatcher_managers[stream_id as int].seq@.len() >= BUFFER_SIZE ==> r is None && final(self).dispatcher_managers[stream_id as int] == old(self).dispatcher_managers[stream_id as int],
@@ -74,13 +85,14 @@ def unit(kind, file, threshold):
     f = FnSpec(file, "send_derived", impl=impl, props=["C03", "C04", "C05", "C14"],
                sig="pub fn send_derived(&mut self, ogre_arc_item: &mut OgreArc) -> (r: bool)",
                sig_anchor=r"fn send_derived\(&self, ogre_arc_item: &OgreArc<ItemType, OgreAllocatorType>\) -> bool",
-               rules=[Rule("R6-unsafe-call", r"unsafe \{ ogre_arc_item\.increment_references\(([^()]*)\) \};", r"ogre_arc_item.increment_references(\1);", count=1),
+               rules=[Rule("R6-wake", r"\bself\.streams_manager\.wake_stream\(", "self.wake_stream(", min=1, note="wake_stream -> channel-level shim (counts the wake-ups issued while the listener's queue has something to hand out)"),
+                      Rule("R6-unsafe-call", r"unsafe \{ ogre_arc_item\.increment_references\(([^()]*)\) \};", r"ogre_arc_item.increment_references(\1);", count=1),
                       Rule("R6-alias", r"let used_streams = self\.streams_manager\.used_streams\(\);", "", count=1, note="&[u32; M] alias of the live list inlined"),
                       Rule("R6-get_unchecked", r"\*unsafe \{ used_streams\.get_unchecked\(([^()]*)\) \}", r"self.streams_manager.used_streams[\1]", count=1, note="unchecked read -> checked index (bound obligation)"),
                       Rule("R6-queue", r"let dispatcher_manager = unsafe \{ self\.dispatcher_managers\.get_unchecked\(([^()]*)\) \};\s*match dispatcher_manager\.publish_movable\(unsafe \{ ogre_arc_item\.raw_copy\(\) \}\)\.0 \{",
                            r"match self.publish_to(\1 as u32, ogre_arc_item.raw_copy()) {", count=1, note="unchecked queue lookup + publish_movable(..).0 -> publish_to (index bound obligation)"),
                       Rule("R12-for-label", r"\bfor\s+(\w+)\s+in\s+(?!it_)", r"for \1 in it_\1: ", count=1)],
-               requires="old(self).streams_manager.inv_sm(), old(ogre_arc_item).granted@ == 0, old(ogre_arc_item).copies@ == 0,"
+               requires="old(self).streams_manager.inv_sm(), old(self).eff@.len() == MAX_STREAMS, old(ogre_arc_item).granted@ == 0, old(ogre_arc_item).copies@ == 0,"
                         "forall|j: int| 0 <= j < MAX_STREAMS ==> old(self).dispatcher_managers[j].seq@.len() < BUFFER_SIZE",
                ensures="r, final(ogre_arc_item).alloc == old(ogre_arc_item).alloc,"
                        "final(ogre_arc_item).refs@ == old(ogre_arc_item).refs@ + old(self).streams_manager.used_streams_count@,"
@@ -89,17 +101,17 @@ def unit(kind, file, threshold):
                        "   final(self).dispatcher_managers[old(self).streams_manager.used_streams[i] as int].seq@ == old(self).dispatcher_managers[old(self).streams_manager.used_streams[i] as int].seq@.push(old(ogre_arc_item).alloc@),"
                        "forall|id: int| 0 <= id < MAX_STREAMS && (forall|k: int| 0 <= k < old(self).streams_manager.used_streams_count@ ==> (#[trigger] old(self).streams_manager.used_streams[k]) as int != id) ==> final(self).dispatcher_managers[id] == old(self).dispatcher_managers[id],"
                        "forall|i: int| 0 <= i < old(self).streams_manager.used_streams_count@ && old(self).dispatcher_managers[old(self).streams_manager.used_streams[i] as int].seq@.len() == 0 ==> "
-                       "   final(self).streams_manager.wakes@[old(self).streams_manager.used_streams[i] as int] > old(self).streams_manager.wakes@[old(self).streams_manager.used_streams[i] as int]",
-               loops={0: "invariant old(self).streams_manager.inv_sm(), self.streams_manager.inv_sm(), it_i.iter.end == running_streams_count, it_i.iter.start <= running_streams_count, running_streams_count == old(self).streams_manager.used_streams_count@,"
+                       "   final(self).eff@[old(self).streams_manager.used_streams[i] as int] > old(self).eff@[old(self).streams_manager.used_streams[i] as int]",
+               loops={0: "invariant old(self).streams_manager.inv_sm(), self.streams_manager.inv_sm(), self.eff@.len() == MAX_STREAMS, it_i.iter.end == running_streams_count, it_i.iter.start <= running_streams_count, running_streams_count == old(self).streams_manager.used_streams_count@,"
                          " self.streams_manager.used_streams == old(self).streams_manager.used_streams, self.streams_manager.used_streams_count == old(self).streams_manager.used_streams_count,"
                          " ogre_arc_item.alloc == old(ogre_arc_item).alloc, ogre_arc_item.refs@ == old(ogre_arc_item).refs@ + old(self).streams_manager.used_streams_count@,"
                          " ogre_arc_item.granted@ == old(self).streams_manager.used_streams_count@, ogre_arc_item.copies@ <= it_i.iter.start,"
                          " forall|j: int| 0 <= j < MAX_STREAMS ==> old(self).dispatcher_managers[j].seq@.len() < BUFFER_SIZE,"
                          " forall|k: int| 0 <= k < it_i.iter.start ==> self.dispatcher_managers[old(self).streams_manager.used_streams[k] as int].seq@ == old(self).dispatcher_managers[old(self).streams_manager.used_streams[k] as int].seq@.push(old(ogre_arc_item).alloc@),"
                          " forall|id: int| 0 <= id < MAX_STREAMS && (forall|k: int| 0 <= k < it_i.iter.start ==> (#[trigger] old(self).streams_manager.used_streams[k]) as int != id) ==> self.dispatcher_managers[id] == old(self).dispatcher_managers[id],"
-                         " forall|id: int| 0 <= id < MAX_STREAMS ==> self.streams_manager.wakes@[id] >= old(self).streams_manager.wakes@[id],"
+                         " forall|id: int| 0 <= id < MAX_STREAMS ==> self.eff@[id] >= old(self).eff@[id],"
                          " forall|k: int| 0 <= k < it_i.iter.start && old(self).dispatcher_managers[old(self).streams_manager.used_streams[k] as int].seq@.len() == 0 ==> "
-                         "    self.streams_manager.wakes@[old(self).streams_manager.used_streams[k] as int] > old(self).streams_manager.wakes@[old(self).streams_manager.used_streams[k] as int],\n"
+                         "    self.eff@[old(self).streams_manager.used_streams[k] as int] > old(self).eff@[old(self).streams_manager.used_streams[k] as int],\n"
                          "ensures it_i.iter.start == old(self).streams_manager.used_streams_count@,"})
     f.container = "impl<const BUFFER_SIZE: usize, const MAX_STREAMS: usize> Channel<BUFFER_SIZE, MAX_STREAMS>"
     return Unit(f"fanout_ogre_arc_{kind}", [f], spec=SPEC,
@@ -150,13 +162,24 @@ impl<const MAX_STREAMS: usize> StreamsManagerBase<MAX_STREAMS> {
 }
 /// `std::thread::sleep(..)` of the waiting arm (R11)
 pub fn env_sleep() { }
-pub struct Channel<const BUFFER_SIZE: usize, const MAX_STREAMS: usize> { pub streams_manager: StreamsManagerBase<MAX_STREAMS>, pub channels: [Queue; MAX_STREAMS] }
+pub struct Channel<const BUFFER_SIZE: usize, const MAX_STREAMS: usize> { pub streams_manager: StreamsManagerBase<MAX_STREAMS>, pub channels: [Queue; MAX_STREAMS],
+    /// ghost: per listener, the wake-ups issued WHILE its queue had something to hand out (C04 mechanism)
+    pub eff: Ghost<Seq<nat>> }
 impl<const BUFFER_SIZE: usize, const MAX_STREAMS: usize> Channel<BUFFER_SIZE, MAX_STREAMS> {
+    /// `self.streams_manager.wake_stream(id)` seen from the channel (index bound obligation inherited)
+    #[verifier::external_body]
+    pub fn wake_stream(&mut self, stream_id: u32)
+        requires (stream_id as int) < MAX_STREAMS, old(self).streams_manager.wakes@.len() == MAX_STREAMS, old(self).eff@.len() == MAX_STREAMS,
+        ensures final(self).streams_manager.wakes@ == old(self).streams_manager.wakes@.update(stream_id as int, old(self).streams_manager.wakes@[stream_id as int] + 1),
+                final(self).streams_manager.used_streams == old(self).streams_manager.used_streams, final(self).streams_manager.used_streams_count == old(self).streams_manager.used_streams_count,
+                final(self).channels == old(self).channels,
+                final(self).eff@ == (if old(self).channels[stream_id as int].seq@.len() > 0 { old(self).eff@.update(stream_id as int, old(self).eff@[stream_id as int] + 1) } else { old(self).eff@ }),
+    { }
     /// `self.channels.get_unchecked(id).publish_movable(handle)`: ASSUMED ring contract (C01/C02): accepted iff not full
     #[verifier::external_body]
     pub fn publish_to(&mut self, stream_id: u32, handle: ArcItem) -> (r: (Option<NonZeroU32>, Option<ArcItem>))
         requires (stream_id as int) < MAX_STREAMS,
-        ensures final(self).streams_manager == old(self).streams_manager,
+        ensures final(self).streams_manager == old(self).streams_manager, final(self).eff == old(self).eff,
                 old(self).channels[stream_id as int].seq@.len() < BUFFER_SIZE ==> (r.0 matches Some(n) && n.get() as int == old(self).channels[stream_id as int].seq@.len() + 1
                     && final(self).channels[stream_id as int].seq@ == old(self).channels[stream_id as int].seq@.push(handle.alloc@)),
                 old(self).channels[stream_id as int].seq@.len() >= BUFFER_SIZE ==> r.0 is None && final(self).channels[stream_id as int] == old(self).channels[stream_id as int],
@@ -173,47 +196,48 @@ def unit_arc(kind, file, publish_rule):
     f = FnSpec(file, "send_derived", impl=impl, props=["C03", "C04"], attrs="#[verifier::exec_allows_no_decreases_clause]",
                sig="pub fn send_derived(&mut self, arc_item: &ArcItem) -> (r: bool)",
                sig_anchor=r"fn send_derived\(&self, arc_item: &Arc<ItemType>\) -> bool",
-               rules=[Rule("R16-iter-index", r"for stream_id in self\.streams_manager\.used_streams\(\)\s*\{",
+               rules=[Rule("R6-wake", r"\bself\.streams_manager\.wake_stream\(", "self.wake_stream(", min=1, note="wake_stream -> channel-level shim (counts the wake-ups issued while the listener's queue has something to hand out)"),
+                      Rule("R16-iter-index", r"for stream_id in self\.streams_manager\.used_streams\(\)\s*\{",
                            "let mut vi: usize = 0; while vi < MAX_STREAMS { let stream_id_v = self.streams_manager.used_streams[vi]; let stream_id = &stream_id_v; vi += 1;", count=1,
                            note="`for x in &array` -> indexed while over a COPY of the entry (same order, same break)"),
                       Rule("R6-queue", r"let channel = unsafe \{ self\.channels\.get_unchecked\(\*stream_id as usize\) \};", "", count=1, note="unchecked queue lookup folded into publish_to (index bound obligation)"),
                       publish_rule,
                       Rule("R11-sleep", r"std::thread::sleep\(Duration::from_millis\(500\)\);", "env_sleep();", count=1)],
-               requires="old(self).streams_manager.inv_sm(), forall|j: int| 0 <= j < MAX_STREAMS ==> old(self).channels[j].seq@.len() < BUFFER_SIZE",
+               requires="old(self).streams_manager.inv_sm(), old(self).eff@.len() == MAX_STREAMS, forall|j: int| 0 <= j < MAX_STREAMS ==> old(self).channels[j].seq@.len() < BUFFER_SIZE",
                ensures="r, final(self).streams_manager.used_streams == " + US + ", final(self).streams_manager.used_streams_count == old(self).streams_manager.used_streams_count,"
                        "forall|i: int| 0 <= i < " + CNT + " ==> final(self).channels[" + US + "[i] as int].seq@ == old(self).channels[" + US + "[i] as int].seq@.push(arc_item.alloc@),"
                        "forall|id: int| 0 <= id < MAX_STREAMS && (forall|k: int| 0 <= k < " + CNT + " ==> (#[trigger] " + US + "[k]) as int != id) ==> final(self).channels[id] == old(self).channels[id],"
                        "forall|i: int| 0 <= i < " + CNT + " && old(self).channels[" + US + "[i] as int].seq@.len() == 0 ==> "
-                       "   final(self).streams_manager.wakes@[" + US + "[i] as int] > old(self).streams_manager.wakes@[" + US + "[i] as int]",
-               loops={0: "invariant_except_break old(self).streams_manager.inv_sm(), self.streams_manager.inv_sm(), vi <= MAX_STREAMS, vi <= " + CNT + ","
+                       "   final(self).eff@[" + US + "[i] as int] > old(self).eff@[" + US + "[i] as int]",
+               loops={0: "invariant_except_break old(self).streams_manager.inv_sm(), self.streams_manager.inv_sm(), self.eff@.len() == MAX_STREAMS, vi <= MAX_STREAMS, vi <= " + CNT + ","
                          " self.streams_manager.used_streams == " + US + ", self.streams_manager.used_streams_count == old(self).streams_manager.used_streams_count,"
                          " forall|j: int| 0 <= j < MAX_STREAMS ==> old(self).channels[j].seq@.len() < BUFFER_SIZE,"
                          " forall|k: int| 0 <= k < vi ==> self.channels[" + US + "[k] as int].seq@ == old(self).channels[" + US + "[k] as int].seq@.push(arc_item.alloc@),"
                          " forall|id: int| 0 <= id < MAX_STREAMS && (forall|k: int| 0 <= k < vi ==> (#[trigger] " + US + "[k]) as int != id) ==> self.channels[id] == old(self).channels[id],"
-                         " forall|id: int| 0 <= id < MAX_STREAMS ==> self.streams_manager.wakes@[id] >= old(self).streams_manager.wakes@[id],"
+                         " forall|id: int| 0 <= id < MAX_STREAMS ==> self.eff@[id] >= old(self).eff@[id],"
                          " forall|k: int| 0 <= k < vi && old(self).channels[" + US + "[k] as int].seq@.len() == 0 ==> "
-                         "    self.streams_manager.wakes@[" + US + "[k] as int] > old(self).streams_manager.wakes@[" + US + "[k] as int],\n"
+                         "    self.eff@[" + US + "[k] as int] > old(self).eff@[" + US + "[k] as int],\n"
                          "ensures old(self).streams_manager.inv_sm(), self.streams_manager.used_streams == " + US + ", self.streams_manager.used_streams_count == old(self).streams_manager.used_streams_count,"
                          " forall|k: int| 0 <= k < " + CNT + " ==> self.channels[" + US + "[k] as int].seq@ == old(self).channels[" + US + "[k] as int].seq@.push(arc_item.alloc@),"
                          " forall|id: int| 0 <= id < MAX_STREAMS && (forall|k: int| 0 <= k < " + CNT + " ==> (#[trigger] " + US + "[k]) as int != id) ==> self.channels[id] == old(self).channels[id],"
                          " forall|k: int| 0 <= k < " + CNT + " && old(self).channels[" + US + "[k] as int].seq@.len() == 0 ==> "
-                         "    self.streams_manager.wakes@[" + US + "[k] as int] > old(self).streams_manager.wakes@[" + US + "[k] as int],\n"
+                         "    self.eff@[" + US + "[k] as int] > old(self).eff@[" + US + "[k] as int],\n"
                          "decreases MAX_STREAMS - vi,",
-                      1: "invariant_except_break old(self).streams_manager.inv_sm(), self.streams_manager.inv_sm(), 1 <= vi <= " + CNT + ", stream_id_v == " + US + "[vi - 1], *stream_id == stream_id_v,"
+                      1: "invariant_except_break old(self).streams_manager.inv_sm(), self.streams_manager.inv_sm(), self.eff@.len() == MAX_STREAMS, 1 <= vi <= " + CNT + ", stream_id_v == " + US + "[vi - 1], *stream_id == stream_id_v,"
                          " self.streams_manager.used_streams == " + US + ", self.streams_manager.used_streams_count == old(self).streams_manager.used_streams_count,"
                          " forall|j: int| 0 <= j < MAX_STREAMS ==> old(self).channels[j].seq@.len() < BUFFER_SIZE,"
                          " self.channels[stream_id_v as int] == old(self).channels[stream_id_v as int],"
                          " forall|k: int| 0 <= k < vi - 1 ==> self.channels[" + US + "[k] as int].seq@ == old(self).channels[" + US + "[k] as int].seq@.push(arc_item.alloc@),"
                          " forall|id: int| 0 <= id < MAX_STREAMS && (forall|k: int| 0 <= k < vi - 1 ==> (#[trigger] " + US + "[k]) as int != id) ==> self.channels[id] == old(self).channels[id],"
-                         " forall|id: int| 0 <= id < MAX_STREAMS ==> self.streams_manager.wakes@[id] >= old(self).streams_manager.wakes@[id],"
+                         " forall|id: int| 0 <= id < MAX_STREAMS ==> self.eff@[id] >= old(self).eff@[id],"
                          " forall|k: int| 0 <= k < vi - 1 && old(self).channels[" + US + "[k] as int].seq@.len() == 0 ==> "
-                         "    self.streams_manager.wakes@[" + US + "[k] as int] > old(self).streams_manager.wakes@[" + US + "[k] as int],\n"
-                         "ensures self.streams_manager.inv_sm(), self.streams_manager.used_streams == " + US + ", self.streams_manager.used_streams_count == old(self).streams_manager.used_streams_count,"
+                         "    self.eff@[" + US + "[k] as int] > old(self).eff@[" + US + "[k] as int],\n"
+                         "ensures self.streams_manager.inv_sm(), self.eff@.len() == MAX_STREAMS, self.streams_manager.used_streams == " + US + ", self.streams_manager.used_streams_count == old(self).streams_manager.used_streams_count,"
                          " forall|k: int| 0 <= k < vi ==> self.channels[" + US + "[k] as int].seq@ == old(self).channels[" + US + "[k] as int].seq@.push(arc_item.alloc@),"
                          " forall|id: int| 0 <= id < MAX_STREAMS && (forall|k: int| 0 <= k < vi ==> (#[trigger] " + US + "[k]) as int != id) ==> self.channels[id] == old(self).channels[id],"
-                         " forall|id: int| 0 <= id < MAX_STREAMS ==> self.streams_manager.wakes@[id] >= old(self).streams_manager.wakes@[id],"
+                         " forall|id: int| 0 <= id < MAX_STREAMS ==> self.eff@[id] >= old(self).eff@[id],"
                          " forall|k: int| 0 <= k < vi && old(self).channels[" + US + "[k] as int].seq@.len() == 0 ==> "
-                         "    self.streams_manager.wakes@[" + US + "[k] as int] > old(self).streams_manager.wakes@[" + US + "[k] as int],"})
+                         "    self.eff@[" + US + "[k] as int] > old(self).eff@[" + US + "[k] as int],"})
     f.container = "impl<const BUFFER_SIZE: usize, const MAX_STREAMS: usize> Channel<BUFFER_SIZE, MAX_STREAMS>"
     return Unit(f"fanout_arc_{kind}", [f], spec=SPEC_ARC,
                 trusted=["publish_to (ring publish_movable: C01/C02), wake_stream, Arc::clone: shims with the contracts printed in the unit"],
@@ -226,9 +250,7 @@ UNITS += [unit_arc("atomic", "src/multi/channels/arc/atomic.rs", Rule("R6-publis
 
 # fanout_arc_crossbeam: the crossbeam-backed Arc Multi channel (its per-listener queues are crossbeam_channel::bounded -- an ASSUMED bounded FIFO;
 # Kani cannot compile crossbeam: internal compiler error). Same obligations as the other Arc channels.
-SPEC_XB = SPEC_ARC.replace("pub struct Channel<const BUFFER_SIZE: usize, const MAX_STREAMS: usize> { pub streams_manager: StreamsManagerBase<MAX_STREAMS>, pub channels: [Queue; MAX_STREAMS] }",
-                           "pub struct Channel<const BUFFER_SIZE: usize, const MAX_STREAMS: usize> { pub streams_manager: StreamsManagerBase<MAX_STREAMS>, pub channels: [Queue; MAX_STREAMS] }\n"
-                           "pub struct SendError { pub v: u8 }") + r"""
+SPEC_XB = SPEC_ARC.replace("pub struct Channel<const BUFFER_SIZE: usize, const MAX_STREAMS: usize> {", "pub struct SendError { pub v: u8 }\npub struct Channel<const BUFFER_SIZE: usize, const MAX_STREAMS: usize> {", 1) + r"""
 impl<const BUFFER_SIZE: usize, const MAX_STREAMS: usize> Channel<BUFFER_SIZE, MAX_STREAMS> {
     /// `self.senders.get_unchecked(id).len()`: ASSUMED crossbeam contract
     #[verifier::external_body]
@@ -240,7 +262,7 @@ impl<const BUFFER_SIZE: usize, const MAX_STREAMS: usize> Channel<BUFFER_SIZE, MA
     #[verifier::external_body]
     pub fn try_send_to(&mut self, stream_id: u32, handle: ArcItem) -> (r: Result<(), SendError>)
         requires (stream_id as int) < MAX_STREAMS,
-        ensures final(self).streams_manager == old(self).streams_manager,
+        ensures final(self).streams_manager == old(self).streams_manager, final(self).eff == old(self).eff,
                 old(self).channels[stream_id as int].seq@.len() < BUFFER_SIZE ==> r is Ok && final(self).channels[stream_id as int].seq@ == old(self).channels[stream_id as int].seq@.push(handle.alloc@),
                 old(self).channels[stream_id as int].seq@.len() >= BUFFER_SIZE ==> r is Err && final(self).channels[stream_id as int] == old(self).channels[stream_id as int],
                 forall|j: int| 0 <= j < MAX_STREAMS && j != stream_id ==> final(self).channels[j] == old(self).channels[j],
